@@ -57,16 +57,42 @@ class KaniSession:
         return r
 
 
-_H = re.compile(r"^Checking harness (\S+?)\.\.\.\s*$", re.M)
+_H = re.compile(r"^(?:Thread (\d+): )?Checking harness (\S+?)\.\.\.\s*$")
+_T = re.compile(r"^Thread (\d+):\s*$")
+
+
+def _sections(output):
+    """(harness, text) sections for both sequential and `-j` (Thread N:) output."""
+    secs = []
+    cur_by_thread = {}
+    cur = None  # index into secs currently receiving lines
+    for line in output.splitlines():
+        m = _H.match(line)
+        if m:
+            th, name = m.group(1), m.group(2)
+            secs.append([name, []])
+            if th is None:
+                cur = len(secs) - 1
+            else:
+                cur_by_thread[th] = len(secs) - 1
+                cur = None
+            continue
+        m = _T.match(line)
+        if m:
+            cur = cur_by_thread.get(m.group(1))
+            continue
+        if line.startswith("Manual Harness Summary") or line.startswith("Contract Harness Summary"):
+            cur = None
+            continue
+        if cur is not None:
+            secs[cur][1].append(line)
+    return [(n, "\n".join(ls) + "\n") for (n, ls) in secs]
 
 
 def parse_kani(output):
     """Split cargo-kani terse output into per-harness records."""
     res = {}
-    marks = [(m.start(), m.group(1)) for m in _H.finditer(output)]
-    for i, (pos, name) in enumerate(marks):
-        end = marks[i + 1][0] if i + 1 < len(marks) else len(output)
-        sec = output[pos:end]
+    for (name, sec) in _sections(output):
         rec = {"name": name, "raw": sec}
         m = re.search(r"\*\* (\d+) of (\d+) failed(?: \((.*?)\))?", sec)
         if m:
